@@ -4,6 +4,7 @@ import (
 	"encoding/hex"
 	"encoding/json"
 	"os"
+	"strings"
 )
 
 func hexDecode(s string) (string, error) {
@@ -13,14 +14,16 @@ func hexDecode(s string) (string, error) {
 
 // Finding is one entry of known_findings.json.
 type Finding struct {
-	ID         string   `json:"id"`
-	Status     string   `json:"status"` // open | fixed
-	Properties []string `json:"properties"`
-	Class      string   `json:"class"` // name of the class predicate (classes.go)
-	Witness    string   `json:"witness"`
-	Site       string   `json:"site"`
-	What       string   `json:"what"`
-	Commit     string   `json:"commit,omitempty"`
+	ID         string              `json:"id"`
+	Status     string              `json:"status"` // open | fixed
+	Properties []string            `json:"properties"`
+	Class      string              `json:"class"` // name of the class predicate (classes.go)
+	Witness    string              `json:"witness"`
+	Site       string              `json:"site"`
+	What       string              `json:"what"`
+	Commit     string              `json:"commit,omitempty"`
+	Clauses    map[string][]string `json:"clauses,omitempty"` // per property: the failing clause must contain one of these
+	Case       *Case               `json:"case,omitempty"`    // witness as a replayable case (runs first, from the corpus)
 }
 
 type findings struct{ list []Finding }
@@ -62,6 +65,17 @@ func (f *findings) match(prop string, fl *Failure) string {
 		}
 		if !listed {
 			continue
+		}
+		if subs, has := k.Clauses[prop]; has {
+			hit := false
+			for _, sub := range subs {
+				if strings.Contains(fl.Clause, sub) {
+					hit = true
+				}
+			}
+			if !hit {
+				continue
+			}
 		}
 		pred, ok := classPredicates[k.Class]
 		if ok && pred(&fl.Case, fl) {
